@@ -28,6 +28,8 @@ import (
 	"os"
 	"runtime"
 	"strconv"
+	"strings"
+	"sync"
 	"time"
 )
 
@@ -76,6 +78,7 @@ type verifModelT struct {
 		V    int
 	}
 	Params map[string]int64
+	SchedOrder []string
 }
 
 type verifStop struct{ label string }
@@ -199,6 +202,90 @@ func verifWaitIdle() int {
 	return -1
 }
 func verifYield()         { runtime.Gosched() }
+
+// ---- native schedule forcing: the harness' scheduling points are passed in the recorded order ----
+
+var (
+	verifSchedMu      sync.Mutex
+	verifSchedCond    = sync.NewCond(&verifSchedMu)
+	verifSchedPos     int
+	verifSchedBroken  bool
+	verifSchedRunner  = -1   // logical id of the goroutine that passed the last point
+	verifSchedArrived = true // that goroutine has reached its next point (or finished)
+	verifSchedLast    time.Time
+	verifGoLabels     sync.Map // goroutine id -> logical id
+)
+
+func verifGoid() string {
+	var buf [64]byte
+	n := runtime.Stack(buf[:], false)
+	f := strings.Fields(string(buf[:n]))
+	if len(f) > 1 {
+		return f[1]
+	}
+	return "?"
+}
+
+func verifMyLabel() int {
+	if v, ok := verifGoLabels.Load(verifGoid()); ok {
+		return v.(int)
+	}
+	return 0
+}
+
+func verifGo(i int) {
+	verifGoLabels.Store(verifGoid(), i)
+	verifSchedAt(strconv.Itoa(i) + ":start")
+}
+
+func verifGoDone() {
+	me := verifMyLabel()
+	verifSchedMu.Lock()
+	if verifSchedRunner == me {
+		verifSchedArrived = true
+	}
+	verifSchedCond.Broadcast()
+	verifSchedMu.Unlock()
+}
+
+func verifSched(label string) { verifSchedAt(strconv.Itoa(verifMyLabel()) + ":" + label) }
+
+func verifSchedAt(key string) {
+	order := verifM.SchedOrder
+	if len(order) == 0 {
+		runtime.Gosched()
+		return
+	}
+	me := verifMyLabel()
+	verifSchedMu.Lock()
+	defer verifSchedMu.Unlock()
+	if verifSchedRunner == me {
+		verifSchedArrived = true
+		verifSchedCond.Broadcast()
+	}
+	deadline := time.Now().Add(3 * time.Second)
+	for !verifSchedBroken && verifSchedPos < len(order) {
+		myTurn := order[verifSchedPos] == key
+		// the previous runner must be quiescent: at its next point, finished, or (after a grace period) blocked
+		quiet := verifSchedRunner < 0 || verifSchedRunner == me || verifSchedArrived || time.Since(verifSchedLast) > 150*time.Millisecond
+		if myTurn && quiet {
+			break
+		}
+		if time.Now().After(deadline) {
+			verifSchedBroken = true // the recorded order cannot be followed natively: run free from here
+			fmt.Println("VERIF-SCHED: gave up forcing the schedule at " + key)
+			break
+		}
+		// wake up periodically (grace period, deadline)
+		go func() { time.Sleep(20 * time.Millisecond); verifSchedCond.Broadcast() }()
+		verifSchedCond.Wait()
+	}
+	if !verifSchedBroken && verifSchedPos < len(order) {
+		verifSchedPos++
+		verifSchedRunner, verifSchedArrived, verifSchedLast = me, false, time.Now()
+	}
+	verifSchedCond.Broadcast()
+}
 func verifOSCalls() int                  { return -1 }
 func verifOSCallArg(i, k int) string     { return "" }
 func verifOSCallName(i int) string       { return "" }
@@ -383,6 +470,7 @@ type modelFile struct {
 	Params   map[string]int64  `json:"Params"`
 	Trace    []int64           `json:"trace,omitempty"`
 	Sched    bool              `json:"sched,omitempty"`
+	SchedOrder []string        `json:"SchedOrder,omitempty"`
 	Files    []string          `json:"harness_files,omitempty"`
 	Native   string            `json:"native_result,omitempty"`
 }
@@ -497,6 +585,9 @@ func verifObserveStr(label, v string)        {}
 func verifObserveBool(label string, v bool)  {}
 func verifWaitIdle() int                     { return 0 }
 func verifYield()                            {}
+func verifGo(i int)                          {}
+func verifGoDone()                           {}
+func verifSched(label string)                {}
 func verifOSCalls() int                      { return 0 }
 func verifOSCallArg(i, k int) string         { return "" }
 func verifOSCallName(i int) string           { return "" }
